@@ -506,6 +506,14 @@ def apply_along_axis(func1d, axis, arr, *args, **kwargs):
     raise HarnessError("apply_along_axis form")
 
 
+def ascontiguousarray(a, dtype=None):
+    a = asarray(a, dtype).fixed()
+    return ndarray(rnp.ascontiguousarray(a.o), a.d)
+
+
+asfortranarray = ascontiguousarray
+
+
 def zeros_like(a, dtype=None):
     a = asarray(a).fixed()
     return snp.zeros(a.o.shape, dtype if dtype is not None else a.d)
@@ -831,7 +839,7 @@ class NumpyShim:
         g = globals()
         for name in ("where nonzero isnan isinf isfinite isclose allclose array_equal sum nansum prod count_nonzero any all "
                      "amax amin sqrt absolute bincount argsort sort unique setxor1d cumsum cumprod flip append concatenate "
-                     "column_stack stack hstack vstack clip diff digitize repeat take zeros_like ones_like empty_like full_like flatnonzero logical_not logical_and logical_or maximum minimum isin in1d ndim shape size nanmax nanmin mean copyto searchsorted apply_along_axis errstate quantile nanquantile cov "
+                     "column_stack stack hstack vstack ascontiguousarray clip diff digitize repeat take zeros_like ones_like empty_like full_like flatnonzero logical_not logical_and logical_or maximum minimum isin in1d ndim shape size nanmax nanmin mean copyto searchsorted apply_along_axis errstate quantile nanquantile cov "
                      "corrcoef generic integer").split():
             setattr(self, name, g[name])
         self.max = amax
